@@ -113,3 +113,32 @@ Example k5_check :
          [[4607182418800017408; 13830554455654793216]; [4604544271217802189; 13827916308072577996];
           [7]; [7]; [7]; [7]; [7]; [8; 1]]) = true.
 Proof. vm_compute. reflexivity. Qed.
+
+(* ---- the Converter's setters between outputs (Dsp/SincConv.v): non-vacuity of c18_delay_reannounce ----
+   ratio 1, depth 2, the same rates announced again through all three setters and the source looked at, before the
+   first output, while priming and once primed: still the source delayed by 2 *)
+Require Import Lra.
+From Dasp Require Import Dsp.SincConv Dsp.SincConvProofs.
+Open Scope R_scope.
+Definition ex_script : list (cop NumR) :=
+  [CSetHz (44100 : T NumR) 44100; CNext; CSetPlay (1 : T NumR); CNext; CPeek; CNext; CSetSample (1 : T NumR);
+   CSetHz (48000 : T NumR) 48000; CNext; CNext; CSetHz (44100 : T NumR) 44100; CNext].
+
+Example ex_script_announces : Forall (announces NumR 1) ex_script.
+Proof.
+  unfold ex_script.
+  repeat (apply Forall_cons; [first [exact I | apply announces_one_play | apply announces_one_sample
+                                     | apply announces_one_hz; lra]|]).
+  apply Forall_nil.
+Qed.
+
+Example ex_delay_script : exists s0 c',
+  sinc_init NumR FmtR 2 2 = Ok s0 /\
+  conv_script NumR FmtR 2 sin cos 1 (conv_new NumR FmtR [[1; -1]; [2; -2]; [3; -3]] s0 1) ex_script
+  = Ok (Some ([[0; 0]; [0; 0]; [1; -1]; [2; -2]; [3; -3]; [0; 0]], c')) /\ pulls c' = 5%nat.
+Proof.
+  assert (Hsrc : forall fr : list R, In fr [[1; -1]; [2; -2]; [3; -3]] -> length fr = 2%nat).
+  { intros fr H. simpl in H. repeat (destruct H as [<-|H]; [reflexivity|]). contradiction. }
+  exact (converter_delay_script 2 2 ltac:(lia) [[1; -1]; [2; -2]; [3; -3]] Hsrc 1 ex_script ltac:(lia) ex_script_announces).
+Qed.
+Close Scope R_scope.
